@@ -224,14 +224,29 @@ func VerifC06_ERethrowOutside() {
 	env := newEnv(ps)
 	d := vndInt("d")
 	env.PutGlobal(lisp.Symbol("d"), lisp.Int(d))
-	where := vndChoice("where", 4)
+	where := vndChoice("where", 9)
 	srcs := []string{
 		"(rethrow)",
 		"(progn (probe 'a) (rethrow))",
 		"(handler-bind ((c1 (lambda (c &rest a) 'ok))) (rethrow))",
 		"(ignore-errors (error 'c1 d)) (rethrow)",
+		// a handler-bind whose matched handler EXPRESSION is not a function / fails to evaluate /
+		// whose handler fails: whatever happened there, no condition may stay pending afterwards
+		"(ignore-errors (handler-bind ((c1 42)) (error 'c1 d))) (rethrow)",
+		"(ignore-errors (handler-bind ((c1 no-such-handler)) (error 'c1 d))) (rethrow)",
+		"(ignore-errors (handler-bind ((c1 (lambda (c &rest a) (error 'c2 1)))) (error 'c1 d))) (rethrow)",
+		"(ignore-errors (handler-bind ((c1 (car 5))) (error 'c1 d))) (rethrow)",
+		"(handler-bind ((c1 (lambda (c &rest a) 'handled))) (error 'c1 d)) (rethrow)",
 	}
 	r := env.LoadString("p", srcs[where])
+	if where >= 4 {
+		vAssert(r.Type == lisp.LError && r.Str != "c1" && r.Str != "c2", "rethrow after a handler-bind has returned finds nothing to rethrow: "+outcome(r))
+		vAssert(env.Runtime.CurrentCondition() == nil, "no condition is left pending")
+	}
+	// inside a handler for e1, an inner handler-bind goes wrong for e2 (swallowed): rethrow still re-raises e1
+	inner := []string{"42", "no-such-handler", "(lambda (c &rest a) (error 'c3 1))"}[vndChoice("inner", 3)]
+	rn := env.LoadString("n", "(handler-bind ((e1 (lambda (c &rest a) (ignore-errors (handler-bind ((e2 "+inner+")) (error 'e2 2))) (rethrow)))) (error 'e1 d))")
+	vAssert(rn.Type == lisp.LError && rn.Str == "e1" && len(rn.Cells) == 1 && rn.Cells[0].Int == d, "rethrow re-raises the very error being handled, whatever happened in nested handlers: "+outcome(rn))
 	if where == 2 {
 		// rethrow in the BODY of a handler-bind (not in a handler) is an error, which c1 does not match
 		vAssert(r.Type == lisp.LError && r.Str != "c1", "rethrow in a body is an error")
